@@ -12,7 +12,7 @@ INF_BWS = 0
 ARGK = {
     "new": "o", "add": "oattl", "add_annotator": "oa", "remove": "oattl", "copy": "oo", "copy_flush": "oo",
     "merge_in_place": "oo", "merge_new": "ooo", "plus": "ooo", "reset_bounds": "o", "drop": "o",
-    "compute": "", "fast_gamma": "oi", "derive": "o", "newaux": "i",
+    "compute": "", "fast_gamma": "oi", "derive": "o", "newaux": "i", "add_timeline": "oa", "add_annotation": "oa",
 }
 
 
@@ -72,6 +72,10 @@ class Encoder:
                         times.add(float(v))
                     elif k == "l" and v is not None:
                         labs.add(v)
+                for it in e.get("items", []):
+                    times.add(float(it[0])); times.add(float(it[1]))
+                    if it[2] is not None:
+                        labs.add(it[2])
                 for _, p in e["obs"]:
                     anns.update(p["ann"]); labs.update(p["cats"]); times.add(p["lo"]); times.add(p["hi"])
                     for u in p["units"]:
@@ -102,7 +106,8 @@ class Encoder:
             args.append({"o": int, "i": int, "a": self.a, "t": self.t, "l": self.l}[k](v))
         return {"op": e["op"], "args": args, "out": e["out"], "kind": e.get("kind", ""),
                 "obs": [[o, self.proj(p)] for o, p in e["obs"]], "eq": e["eq"],
-                "aux": e.get("aux", []), "auxval": e.get("auxval", [])}
+                "aux": e.get("aux", []), "auxval": e.get("auxval", []),
+                "items": [[self.t(i[0]), self.t(i[1]), self.l(i[2])] for i in e.get("items", [])]}
 
     def file(self, traces, nobj):
         return {"zero": self.t(0.0), "nobj": nobj, "traces": [[self.event(e) for e in tr] for tr in traces]}
